@@ -363,7 +363,7 @@ def units(w):
                       prepare=install, bounded="argument lists of length <= 3", replay=replay_prog))
 
     # ================================================================== method call: prototype chain, receiver first
-    def s_method(depth, where):
+    def s_method(depth, where, tail=None):
         def setup(it):
             K.axioms(it)
             calls = []
@@ -383,6 +383,10 @@ def units(w):
                 objs.append(V.object_of(it, ents, f"o{i}"))
             for i in range(depth - 1):
                 objs[i].fields["value"].entries.append(["_proto_", objs[i + 1]])
+            if tail == "cycle":
+                objs[-1].fields["value"].entries.append(["_proto_", objs[0]])        # the chain closes on itself
+            elif tail == "scalar":
+                objs[-1].fields["value"].entries.append(["_proto_", V.int(it, "notanobject")])
             recv = objs[0]
             node = Obj(nodes["NodeDerefInvoke"], {"objectExpr": Obj(nodes["NodeLiteral"], {"value": recv, "pos": None}), "member": "m",
                                                   "names": PList([None]), "args": PList([K.node("arg")]), "pos": V.pos(it)})
@@ -407,9 +411,52 @@ def units(w):
         return post
     for depth in (1, 2, 3):
         for where in range(-1, depth):
-            U.append(Unit("nodes.py::NodeDerefInvoke.evaluate", s_method(depth, where), p_method(depth, where),
-                          name=f"nodes.py::NodeDerefInvoke.evaluate[chain {depth}, member at {where}]", prepare=install,
-                          bounded="prototype chains of depth <= 3", replay=replay_prog))
+            for tail in (None, "cycle", "scalar"):
+                U.append(Unit("nodes.py::NodeDerefInvoke.evaluate", s_method(depth, where, tail), p_method(depth, where),
+                              name=f"nodes.py::NodeDerefInvoke.evaluate[chain {depth}, member at {where}" + (f", chain ends in a {tail}" if tail else "") + "]",
+                              prepare=install, bounded="prototype chains of depth <= 3", replay=replay_prog,
+                              config={"max_unroll": 8, "unroll_overflow_is_nontermination": True}))
+
+    # member read through the chain (NodeDeref, object branch) and ValueObject.resolveItem: same walk, same ends
+    def s_read(depth, where, tail, target):
+        def setup(it):
+            K.axioms(it)
+            objs = []
+            for i in range(depth):
+                ents = [("m", SElem(z3.Int(f"found{i}"), "value"))] if (i == where or (i > where >= 0)) else []
+                objs.append(V.object_of(it, ents, f"o{i}"))
+            for i in range(depth - 1):
+                objs[i].fields["value"].entries.append(["_proto_", objs[i + 1]])
+            if tail == "cycle":
+                objs[-1].fields["value"].entries.append(["_proto_", objs[0]])
+            elif tail == "scalar":
+                objs[-1].fields["value"].entries.append(["_proto_", V.int(it, "notanobject")])
+            if target == "resolveItem":
+                return [objs[0], "m"], {}, {"where": where}
+            node = Obj(nodes["NodeDeref"], {"expression": Obj(nodes["NodeLiteral"], {"value": objs[0], "pos": None}),
+                                            "index": Obj(nodes["NodeLiteral"], {"value": V._mk("ValueString", {"value": "m"}), "pos": None}),
+                                            "default_value": None, "pos": V.pos(it)})
+            node.fresh = False
+            return [node, conc_frame(it, "env", None)], {}, {"where": where}
+        return setup
+
+    def p_read(target):
+        def post(it, c, o):
+            w_ = c["where"]
+            if w_ < 0:
+                it.check("post:a-member-found-nowhere-on-the-chain-reads-as-absent", o.kind == "return" and (o.value is V.NULL or o.value is None))
+            else:
+                it.check("post:the-first-definition-along-the-chain-is-read", o.kind == "return" and isinstance(o.value, SElem)
+                         and z3.eq(o.value.z, z3.Int(f"found{w_}")))
+        return post
+    for target, qual in (("NodeDeref", "nodes.py::NodeDeref.evaluate"), ("resolveItem", "values.py::ValueObject.resolveItem")):
+        for depth in (1, 2, 3):
+            for where in range(-1, depth):
+                for tail in (None, "cycle", "scalar"):
+                    U.append(Unit(qual, s_read(depth, where, tail, target), p_read(target),
+                                  name=f"{qual}[chain {depth}, member at {where}" + (f", chain ends in a {tail}" if tail else "") + "]",
+                                  prepare=install, bounded="prototype chains of depth <= 3", replay=replay_prog, allowed=(),
+                                  config={"max_unroll": 8, "unroll_overflow_is_nontermination": True}))
 
     # ================================================================== Args.setArgs against the binding spec (symbolic-bounded)
     def bind_spec(params, rest, names, values):
@@ -502,6 +549,11 @@ PROGS = [
     ("def k(a, b, c = 0) [a, b, c]; 10 !> k(20, a = 1)", "[1, 10, 20]"),
     ("def h(a, b, c) [a, b, c]; [h(1, 2, b = 9), h(1, c = 7, b = 8), do h(c = 3, 1, 2) catch all 'positional after named' end]", "[[1, 9, 2], [1, 8, 7], 'positional after named']"),
     ("def h(a, b, c) [a, b, c]; h(1, 2, ...<<<'a' => 0>>>)", "[0, 1, 2]"),
+    # member lookup follows the prototype chain and ends on a cyclic chain or a prototype that is not an object
+    ("def o = <*a = 1*>; o->_proto_ = o; [o->a, o->x]", "[1, NULL]"),
+    ("def o = <*a = 1*>; def p = <*_proto_ = o, b = 2*>; o->_proto_ = p; [p->a, p->zz, do p->zz() catch all 'no member' end]", "[1, NULL, 'no member']"),
+    ("def o = <*_proto_ = 5, a = 1*>; [o->a, o->x, do o->x() catch all 'no member' end]", "[1, NULL, 'no member']"),
+    ("def base = <*f = fn(self) self->k, k = 1*>; def o = <*_proto_ = base, k = 2*>; o->f()", "2"),
     ("def f(x, a) [x, a]; 1 !> f(2)", "[1, 2]"), ("def f(x, a = 9) [x, a]; [1 !> f(), 1 !> f(a = 3)]", "[[1, 9], [1, 3]]"),
     ("def o = <*v = 3, m = fn(self, k) self->v * k*>; o->m(2)", "6"),
     ("def base = <*m = fn(self) self->tag*>; def o = <*_proto_ = base, tag = 'child'*>; o->m()", "'child'"),
@@ -519,10 +571,24 @@ def bounded(tier, seed):
     t0 = time.time()
     interp, errors, parser = _interp()
     fails, ev = [], 0
+    import signal
+
+    class _Alarm(Exception):
+        pass
+
+    def _raise(*a):
+        raise _Alarm()
+    signal.signal(signal.SIGALRM, _raise)
     for src, exp in PROGS:
         ev += 1
         try:
-            obs = str(interp.Interpreter(True, True).interpret(src, "-"))
+            signal.setitimer(signal.ITIMER_REAL, 5.0)
+            try:
+                obs = str(interp.Interpreter(True, True).interpret(src, "-"))
+            finally:
+                signal.setitimer(signal.ITIMER_REAL, 0)
+        except _Alarm:
+            obs = "does not terminate within 5 s"
         except Exception as e:
             obs = repr(e)
         if obs != exp:
